@@ -102,6 +102,55 @@ type host struct {
 	held        []chan error
 	// onElement, when set, sees every element right after Next returned it (hosts that annotate what they receive)
 	onElement func(el *ysgo.DialogueElement)
+	// elementMode: what the host does with the elements it receives (they are its own). 1: it keeps them all and looks at
+	// them again at every step - an element never changes after it was returned; 2: it overwrites them after reading them -
+	// what it does to its elements never comes back in later ones.
+	elementMode int
+	keptEls     []keptElement
+}
+
+type keptElement struct {
+	live *ysgo.DialogueElement
+	seen Ev
+}
+
+// evOf describes an element the way step records it.
+func evOf(el *ysgo.DialogueElement) Ev {
+	switch {
+	case el == nil:
+		return Ev{K: "end"}
+	case el.Line != nil && el.Options == nil:
+		return Ev{K: "line", Node: el.Node, Text: el.Line.Text, Tags: append([]string{}, el.Line.Tags...)}
+	}
+	ev := Ev{K: "opts", Node: el.Node}
+	for _, o := range el.Options {
+		if o.Line == nil {
+			return Ev{K: "panic", Text: "option without a line"}
+		}
+		ev.Opts = append(ev.Opts, OptEv{Text: o.Line.Text, Tags: append([]string{}, o.Line.Tags...), Disabled: o.Disabled})
+	}
+	return ev
+}
+
+func scribbleElement(el *ysgo.DialogueElement) {
+	el.Node = "scribbled by the host"
+	mark := func(l *ysgo.Line) {
+		if l == nil {
+			return
+		}
+		l.Text = strings.ToUpper(l.Text) + " (scribbled by the host)"
+		for i := range l.Tags {
+			l.Tags[i] = "scribbled"
+		}
+		for i := range l.Attributes {
+			l.Attributes[i].Position, l.Attributes[i].Length, l.Attributes[i].Name = -3, -3, "scribbled"
+		}
+	}
+	mark(el.Line)
+	for i := range el.Options {
+		mark(el.Options[i].Line)
+		el.Options[i].Disabled = !el.Options[i].Disabled
+	}
 }
 
 func readers(srcs []string) []io.Reader {
@@ -126,8 +175,18 @@ func newHostInMemory(srcs []string, seed string, vars map[string]mval) (*host, e
 		return nil, err
 	}
 	h.dr = dr
+	h.elementMode = elementModeFor(srcs)
 	h.register()
 	return h, nil
+}
+
+// elementModeFor: a third of the hosts keep their elements, a third overwrite them, a third just read them.
+func elementModeFor(srcs []string) int {
+	n := 0
+	for _, s := range srcs {
+		n += len(s)
+	}
+	return n % 3
 }
 
 func newHost(srcs []string, seed string, vars map[string]mval) (*host, error) {
@@ -149,6 +208,7 @@ func newHost(srcs []string, seed string, vars map[string]mval) (*host, error) {
 		return nil, err
 	}
 	h.dr = dr
+	h.elementMode = elementModeFor(srcs)
 	h.register()
 	return h, nil
 }
@@ -212,6 +272,19 @@ func (h *host) step(arg int) Ev {
 	if el != nil && h.onElement != nil && panicked == nil {
 		h.onElement(el)
 	}
+	if h.elementMode == 1 && panicked == nil {
+		for i, k := range h.keptEls {
+			if now := evOf(k.live); !sameEv(now, k.seen) {
+				changed := Ev{K: "panic", Text: fmt.Sprintf("the element returned by call %d was %s when it was returned; the host kept it, and after later calls it reads %s", i+1, k.seen, now)}
+				h.trace = append(h.trace, changed)
+				h.keptEls = nil
+				return changed
+			}
+		}
+		if el != nil && err == nil {
+			h.keptEls = append(h.keptEls, keptElement{el, evOf(el)})
+		}
+	}
 	switch {
 	case panicked != nil:
 		ev = Ev{K: "panic", Text: fmt.Sprint(panicked)}
@@ -222,7 +295,7 @@ func (h *host) step(arg int) Ev {
 	case el == nil:
 		ev = Ev{K: "end"}
 	case el.Line != nil && el.Options == nil:
-		ev = Ev{K: "line", Node: el.Node, Text: el.Line.Text, Tags: el.Line.Tags}
+		ev = evOf(el)
 	case el.Line == nil && el.Options != nil:
 		ev = Ev{K: "opts", Node: el.Node}
 		for _, o := range el.Options {
@@ -230,13 +303,16 @@ func (h *host) step(arg int) Ev {
 				ev = Ev{K: "panic", Text: "option without a line"}
 				break
 			}
-			ev.Opts = append(ev.Opts, OptEv{Text: o.Line.Text, Tags: o.Line.Tags, Disabled: o.Disabled})
+			ev.Opts = append(ev.Opts, OptEv{Text: o.Line.Text, Tags: append([]string{}, o.Line.Tags...), Disabled: o.Disabled})
 		}
 		h.lastOpt = len(el.Options)
 	default:
 		ev = Ev{K: "panic", Text: fmt.Sprintf("element with Line=%v and Options=%v", el.Line != nil, el.Options != nil)}
 	}
 	h.trace = append(h.trace, ev)
+	if h.elementMode == 2 && el != nil && panicked == nil && err == nil {
+		scribbleElement(el)
+	}
 	return ev
 }
 
